@@ -43,6 +43,10 @@ pub struct CbGuard {
 impl Drop for CbGuard {
     fn drop(&mut self) {
         self.sh.push(Ev::CbDrop { src: self.id });
+        self.sh.cb_dropped.borrow_mut().insert(self.id);
+        // what the closure owned goes with it (Async adapters: their Drop calls back into the loop)
+        let bag = self.sh.bags.borrow_mut().remove(&self.id);
+        drop(bag);
     }
 }
 pub struct IdleGuard {
@@ -703,6 +707,8 @@ pub struct WAsync {
     pub slot: u8,
     pub fd: RawFd,
     pub wakes: std::sync::Arc<CountWake>,
+    /// moved into the callback closure of this source (alive as long as that closure is)
+    pub given_to: Option<SrcId>,
 }
 
 /// Waker that only counts.
@@ -1571,7 +1577,7 @@ impl Ctx {
                     });
                 }
                 let raw = self.fdslots[slot].as_ref().unwrap().0 .0;
-                let live_before = self.asyncs.iter().any(|a| a.slot as usize == slot && a.adapter.is_some());
+                let live_before = self.asyncs.iter().any(|a| a.slot as usize == slot && (a.adapter.is_some() || a.given_to.map_or(false, |o| sh.bags.borrow().contains_key(&o))));
                 if !live_before {
                     kernel::set_nonblocking(raw, !*blocking);
                 }
@@ -1582,7 +1588,7 @@ impl Ctx {
                 match r {
                     Ok(Ok(a)) => {
                         let idx = self.asyncs.len();
-                        self.asyncs.push(WAsync { adapter: Some(a), slot: slot as u8, fd: raw, wakes: Default::default() });
+                        self.asyncs.push(WAsync { adapter: Some(a), slot: slot as u8, fd: raw, wakes: Default::default(), given_to: None });
                         sh.push(Ev::Adapted { a: Some(idx), nonblocking_after: kernel::is_nonblocking(raw) });
                         sh.push(Ev::OpRes(Res::Ok));
                     }
@@ -1642,6 +1648,20 @@ impl Ctx {
                         sh.push(Ev::OpRes(panic_res(p)));
                     }
                 }
+            }
+            Op::AsyncGive { a, tok } => {
+                let Some(i) = pick(*a, self.asyncs.len()) else { return };
+                let Some(ti) = pick(*tok, self.tokens.len()) else { return };
+                let owner = self.tokens[ti].1;
+                // only to a source whose callback is still owned by the loop (or a kept dispatcher) and not running
+                if !self.srcs[owner].inserted || self.sh.cur_proc.get() == Some(owner) || self.sh.cb_dropped.borrow().contains(&owner) {
+                    return;
+                }
+                let Some(ad) = self.asyncs[i].adapter.take() else { return };
+                sh.push(Ev::Op(ROp::AsyncGive { a: i, src: owner }));
+                self.asyncs[i].given_to = Some(owner);
+                sh.bags.borrow_mut().entry(owner).or_default().push(Box::new(ad));
+                sh.push(Ev::OpRes(Res::Ok));
             }
             Op::AsyncPeerWrite { a, n } => {
                 let Some(i) = pick(*a, self.asyncs.len()) else { return };
@@ -1708,7 +1728,7 @@ impl Ctx {
     /// Ground-truth probes taken right before a dispatch.
     fn pre_dispatch_probes(&mut self) {
         for (i, a) in self.asyncs.iter().enumerate() {
-            if a.adapter.is_some() {
+            if a.adapter.is_some() || a.given_to.map_or(false, |o| self.sh.bags.borrow().contains_key(&o)) {
                 self.sh.push(Ev::AsyncFd { a: i, r: kernel::is_readable(a.fd), w: kernel::is_writable(a.fd) });
             }
         }
@@ -1812,6 +1832,11 @@ pub fn run_history(case: &HistCase, opts: Opts) -> Vec<Ev> {
         if !poisoned {
             ctx.snapshot(true);
         }
+        // a callback that owns an Async adapter holds the loop alive (the documented reference cycle): the history
+        // ends it by taking the adapters back before anything else is dropped
+        sh.push(Ev::BagsCleared);
+        let bags: Vec<_> = sh.bags.borrow_mut().drain().collect();
+        drop(bags);
         let loop_first = case.loop_first;
         if loop_first {
             ctx.handle = None;
